@@ -1,4 +1,5 @@
 import KitModel.Go.Prelude
+import KitModel.Generated.C04Parser
 /-!
 # Model of `/repo/cron/parser.go` (C04, parser half)
 
@@ -30,5 +31,445 @@ inductive Sched where
   | spec (s : SpecSchedule) (loc : Option String)
   | every (delayNs : Int)
   deriving Repr, DecidableEq
+
+/-! ## Go string helpers over `List Char` (one `Char` = one rune)
+
+Invalid UTF-8 bytes are not representable; the harness maps each to U+FFFD (Go's own
+`strings.Fields`/`ToLower`/`TrimSpace` treat such a byte as the rune U+FFFD of width 1). -/
+
+/-- `unicode.IsSpace`. -/
+def isSpace (c : Char) : Bool :=
+  let n := c.toNat
+  n == 0x20 || (0x09 ≤ n && n ≤ 0x0D) || n == 0x85 || n == 0xA0 || n == 0x1680 ||
+  (0x2000 ≤ n && n ≤ 0x200A) || n == 0x2028 || n == 0x2029 || n == 0x202F || n == 0x205F || n == 0x3000
+
+/-- `unicode.ToLower` restricted to what can matter for a map lookup with ASCII keys:
+ASCII upper case, plus the two non-ASCII runes whose lower case is ASCII (U+0130 → `i`,
+U+212A → `k`).  Every other rune is mapped to itself (a non-ASCII rune never lower-cases to
+ASCII otherwise — Unicode fact, exercised by the harness). -/
+def toLowerRune (c : Char) : Char :=
+  if 'A' ≤ c ∧ c ≤ 'Z' then Char.ofNat (c.toNat + 32)
+  else if c.toNat = 0x130 then 'i'
+  else if c.toNat = 0x212A then 'k'
+  else c
+
+/-- `strings.ToLower`. -/
+def toLower (s : List Char) : List Char := s.map toLowerRune
+
+/-- Split at every rune satisfying `p` (separators dropped, empty pieces kept): the common core of
+`strings.Split(s, "c")` and `strings.FieldsFunc`. Always returns at least one piece. -/
+def splitBy (p : Char → Bool) : List Char → List (List Char)
+  | [] => [[]]
+  | c :: cs =>
+    let r := splitBy p cs
+    if p c then [] :: r else (c :: r.headD []) :: r.tail
+
+/-- `strings.Split(s, string(sep))`. -/
+def splitOn (sep : Char) (s : List Char) : List (List Char) := splitBy (· == sep) s
+
+/-- `strings.FieldsFunc(s, p)`: maximal runs of non-`p` runes. -/
+def fieldsFunc (p : Char → Bool) (s : List Char) : List (List Char) :=
+  (splitBy p s).filter (fun x => !x.isEmpty)
+
+/-- `strings.Fields`. -/
+def fields (s : List Char) : List (List Char) := fieldsFunc isSpace s
+
+/-- `strings.TrimSpace`. -/
+def trimSpace (s : List Char) : List Char :=
+  ((s.dropWhile isSpace).reverse.dropWhile isSpace).reverse
+
+/-- `strings.HasPrefix(s, p)`. -/
+def hasPrefix (p s : List Char) : Bool := p.isPrefixOf s
+
+/-- `strings.Index(s, string(c))`; `none` is Go's `-1`. -/
+def indexOf (c : Char) : List Char → Option Nat
+  | [] => none
+  | x :: xs => if x = c then some 0 else (indexOf c xs).map (· + 1)
+
+/-- Go `s[lo:hi]` on a string: panics unless `lo ≤ hi ≤ len`. -/
+def sliceO (s : List Char) (lo hi : Nat) : Outcome (List Char) :=
+  if lo ≤ hi ∧ hi ≤ s.length then .ok ((s.take hi).drop lo)
+  else .panic "slice bounds out of range"
+
+/-- Go `l[i]`: panics when out of range. -/
+def idxO {α : Type} (l : List α) (i : Nat) : Outcome α :=
+  match l[i]? with
+  | some a => .ok a
+  | none => .panic "index out of range"
+
+def digitVal (c : Char) : Option Nat :=
+  if '0' ≤ c ∧ c ≤ '9' then some (c.toNat - 48) else none
+
+/-- Decimal digits → value, left to right with an accumulator (as `strconv` does); `none` on a
+non-digit. -/
+def digitsVal : List Char → Nat → Option Nat
+  | [], acc => some acc
+  | c :: cs, acc =>
+    match digitVal c with
+    | some d => digitsVal cs (acc * 10 + d)
+    | none => none
+
+/-- `strconv.Atoi` on a 64-bit platform (`none` = any error: syntax or range). Optional sign,
+at least one digit, digits only, result in `[-2^63, 2^63)`. -/
+def atoi (s : List Char) : Option Int :=
+  let neg := s.head? = some '-'
+  let ds := if s.head? = some '-' ∨ s.head? = some '+' then s.tail else s
+  if ds.isEmpty then none
+  else match digitsVal ds 0 with
+    | none => none
+    | some n =>
+      if neg then (if n ≤ 2 ^ 63 then some (-(n : Int)) else none)
+      else (if n < 2 ^ 63 then some (n : Int) else none)
+
+/-! ## Tables (from the generated facts) -/
+
+/-- Go `bounds`; `names` is the Go map as an association list (`nil` map = `[]`). -/
+structure Bounds where
+  min : Nat
+  max : Nat
+  names : List (List Char × Nat)
+  deriving Repr, DecidableEq
+
+def lookupBounds (v : String) : Option Bounds :=
+  (Gen.boundsTable.find? (·.1 == v)).map fun e => ⟨e.2.1, e.2.2.1, e.2.2.2⟩
+
+def boundsOf (v : String) : Bounds := (lookupBounds v).getD ⟨0, 0, []⟩
+
+def seconds : Bounds := boundsOf "seconds"
+def minutes : Bounds := boundsOf "minutes"
+def hours : Bounds := boundsOf "hours"
+def dom : Bounds := boundsOf "dom"
+def months : Bounds := boundsOf "months"
+def dow : Bounds := boundsOf "dow"
+
+/-- The six fields of a schedule, in `places` order. -/
+inductive Place where
+  | second | minute | hour | dom | month | dow
+  deriving Repr, DecidableEq
+
+def Place.ofName : String → Option Place
+  | "Second" => some .second | "Minute" => some .minute | "Hour" => some .hour
+  | "Dom" => some .dom | "Month" => some .month | "Dow" => some .dow
+  | _ => none
+
+def Place.bounds : Place → Bounds
+  | .second => Cron.seconds | .minute => Cron.minutes | .hour => Cron.hours
+  | .dom => Cron.dom | .month => Cron.months | .dow => Cron.dow
+
+/-- Go `var places`. -/
+def places : List Place := Gen.places.filterMap Place.ofName
+
+def optBit (name : String) : Nat := ((Gen.optionBits.find? (·.1 == name)).map (·.2)).getD 64
+
+/-- A `ParseOption` value decoded into its nine flags (only these bits are ever tested). -/
+structure Opts where
+  second : Bool
+  secondOptional : Bool
+  minute : Bool
+  hour : Bool
+  dom : Bool
+  month : Bool
+  dow : Bool
+  dowOptional : Bool
+  descriptor : Bool
+  deriving Repr, DecidableEq
+
+def Opts.ofNat (n : Nat) : Opts :=
+  { second := n.testBit (optBit "Second"), secondOptional := n.testBit (optBit "SecondOptional"),
+    minute := n.testBit (optBit "Minute"), hour := n.testBit (optBit "Hour"),
+    dom := n.testBit (optBit "Dom"), month := n.testBit (optBit "Month"),
+    dow := n.testBit (optBit "Dow"), dowOptional := n.testBit (optBit "DowOptional"),
+    descriptor := n.testBit (optBit "Descriptor") }
+
+/-- `options & place > 0`. -/
+def Opts.has (o : Opts) : Place → Bool
+  | .second => o.second | .minute => o.minute | .hour => o.hour
+  | .dom => o.dom | .month => o.month | .dow => o.dow
+
+/-- `NewParser` panics when both optionals are given (documented misuse). -/
+def Opts.twoOptionals (o : Opts) : Bool := o.secondOptional && o.dowOptional
+
+/-! ## getBits / getRange / getField -/
+
+def allOnes64 : BitVec 64 := BitVec.allOnes 64
+
+/-- The loop `for i := min; i <= max; i += step { bits |= 1 << i }` with `fuel` iterations
+available. `i + step` is computed in `Nat`: for `max ≤ 63` and `step < 2^63` (all call sites) the
+Go `uint` addition cannot wrap (`KitProofs`: `getBits_no_wrap`). -/
+def getBitsLoop (max step : Nat) : Nat → Nat → BitVec 64 → BitVec 64
+  | 0, _, bits => bits
+  | fuel + 1, i, bits =>
+    if i ≤ max then getBitsLoop max step fuel (i + step) (bits ||| ((1 : BitVec 64) <<< i)) else bits
+
+/-- Go `getBits(min, max, step)`. Shifts by ≥ 64 give 0, as in Go. (`step = 0` with
+`min ≤ max` would loop forever in Go; `getRange` refuses it before the call.) -/
+def getBits (min max step : Nat) : BitVec 64 :=
+  if step = 1 then ~~~(allOnes64 <<< (max + 1)) &&& (allOnes64 <<< min)
+  else getBitsLoop max step (max + 1) min 0
+
+/-- Go `all(r)`. -/
+def allBits (r : Bounds) : BitVec 64 := getBits r.min r.max 1 ||| starBit
+
+def nameLookup (names : List (List Char × Nat)) (k : List Char) : Option Nat :=
+  (names.find? (·.1 == k)).map (·.2)
+
+/-- Go `mustParseInt`. -/
+def mustParseInt (expr : List Char) : Outcome Nat :=
+  match atoi expr with
+  | none => .err "atoi"
+  | some n => if n < 0 then .err "negative" else .ok n.toNat
+
+/-- Go `parseIntOrName`. -/
+def parseIntOrName (expr : List Char) (names : List (List Char × Nat)) : Outcome Nat :=
+  match nameLookup names (toLower expr) with
+  | some n => .ok n
+  | none => mustParseInt expr
+
+def isWild (s : List Char) : Bool := s == ['*'] || s == ['?']
+
+/-- The four range checks and the final `getBits(start, end, step) | extra`. -/
+def finishRange (r : Bounds) (start end_ step : Nat) (extra : BitVec 64) : Outcome (BitVec 64) :=
+  if start < r.min then .err "below-min"
+  else if end_ > r.max then .err "above-max"
+  else if start > end_ then .err "inverted"
+  else if step = 0 then .err "zero-step"
+  else .ok (getBits start end_ step ||| extra)
+
+/-- Go `getRange(expr, r)`. `wildGuard` = the source contains the check that refuses `*-x`
+(`Gen.wildcardBoundGuard`; without it everything after the hyphen of `*-…` is ignored). -/
+def getRangeG (wildGuard : Bool) (r : Bounds) (expr : List Char) : Outcome (BitVec 64) :=
+  match splitOn '/' expr with
+  | [] => .panic "rangeAndStep[0]"
+  | rs0 :: rsRest =>
+    match splitOn '-' rs0 with
+    | [] => .panic "lowAndHigh[0]"
+    | lh0 :: lhRest =>
+      let base : Outcome (Nat × Nat × BitVec 64) :=
+        if isWild lh0 then
+          if wildGuard && !lhRest.isEmpty then .err "wildcard-bound"
+          else .ok (r.min, r.max, starBit)
+        else
+          match parseIntOrName lh0 r.names with
+          | .err e => .err e
+          | .panic w => .panic w
+          | .ok start =>
+            match lhRest with
+            | [] => .ok (start, start, 0)
+            | [lh1] =>
+              match parseIntOrName lh1 r.names with
+              | .err e => .err e
+              | .panic w => .panic w
+              | .ok e => .ok (start, e, 0)
+            | _ => .err "hyphens"
+      match base with
+      | .err e => .err e
+      | .panic w => .panic w
+      | .ok (start, end_, extra) =>
+        match rsRest with
+        | [] => finishRange r start end_ 1 extra
+        | [st] =>
+          match mustParseInt st with
+          | .err e => .err e
+          | .panic w => .panic w
+          | .ok step =>
+            finishRange r start (if lhRest.isEmpty then r.max else end_) step
+              (if step > 1 then 0 else extra)
+        | _ => .err "slashes"
+
+def getRange (r : Bounds) (expr : List Char) : Outcome (BitVec 64) :=
+  getRangeG Gen.wildcardBoundGuard r expr
+
+/-- The loop of Go `getField`: first error wins. -/
+def getFieldLoop (r : Bounds) : List (List Char) → BitVec 64 → Outcome (BitVec 64)
+  | [], bits => .ok bits
+  | e :: es, bits =>
+    match getRange r e with
+    | .ok b => getFieldLoop r es (bits ||| b)
+    | .err x => .err x
+    | .panic w => .panic w
+
+/-- Go `getField(field, r)`. -/
+def getField (r : Bounds) (field : List Char) : Outcome (BitVec 64) :=
+  getFieldLoop r (fieldsFunc (· == ',') field) 0
+
+/-! ## normalizeFields -/
+
+/-- The final loop of `normalizeFields`: walk `places` with the matching `defaults`
+(`""` where `defaults` is shorter, as `make`+`copy` leave it); `fields[n]` may panic. -/
+def expandLoop (o : Opts) : List Place → List (List Char) → List (List Char) → Outcome (List (List Char))
+  | [], _, _ => .ok []
+  | p :: ps, ds, fs =>
+    let d := ds.headD []
+    if o.has p then
+      match fs with
+      | [] => .panic "fields[n]"
+      | f :: fs' =>
+        match expandLoop o ps ds.tail fs' with
+        | .ok r => .ok (f :: r)
+        | .err e => .err e
+        | .panic w => .panic w
+    else
+      match expandLoop o ps ds.tail fs with
+      | .ok r => .ok (d :: r)
+      | .err e => .err e
+      | .panic w => .panic w
+
+/-- Go `normalizeFields(fields, options)`. -/
+def normalizeFields (flds : List (List Char)) (o : Opts) : Outcome (List (List Char)) :=
+  let optionals := (if o.secondOptional then 1 else 0) + (if o.dowOptional then 1 else 0)
+  let o' : Opts := { o with second := o.second || o.secondOptional, dow := o.dow || o.dowOptional }
+  if optionals > 1 then .err "multiple-optionals"
+  else
+    let max := (places.filter o'.has).length
+    let min := max - optionals
+    let count := flds.length
+    if count < min ∨ count > max then .err "field-count"
+    else
+      let filled : Outcome (List (List Char)) :=
+        if min < max ∧ count = min then
+          if o.dowOptional then
+            match idxO Gen.defaults Gen.dowOptionalDefault with
+            | .ok d => .ok (flds ++ [d])
+            | .err e => .err e
+            | .panic w => .panic w
+          else if o.secondOptional then
+            match idxO Gen.defaults Gen.secondOptionalDefault with
+            | .ok d => .ok (d :: flds)
+            | .err e => .err e
+            | .panic w => .panic w
+          else .err "unknown-optional"
+        else .ok flds
+      match filled with
+      | .ok fs => expandLoop o' places Gen.defaults fs
+      | .err e => .err e
+      | .panic w => .panic w
+
+/-! ## Descriptors, Every, Parse -/
+
+/-- `Every(duration)` — the resulting `Delay` in nanoseconds. -/
+def everyDelay (d : Int) : Int :=
+  let d := if d < Gen.everyMinNs then Gen.everyMinNs else d
+  d - d % Gen.everyUnitNs
+
+/-- What the model is told about the world outside dapr/kit: whether `time.LoadLocation(name)`
+succeeds, and the result of `time.ParseDuration(text)` (`none` = error, else nanoseconds).
+The harness supplies the real answers per case; all theorems hold for every `Env`. -/
+structure Env where
+  knownZone : List Char → Bool
+  parseDuration : List Char → Option Int
+
+def descBits (kind bnd : String) : BitVec 64 :=
+  let b := boundsOf bnd
+  if kind == "all" then allBits b else (1 : BitVec 64) <<< b.min
+
+/-- One row of the descriptor table → schedule (fields looked up by `SpecSchedule` field name). -/
+def descSchedule (row : List (String × String × String)) : SpecSchedule :=
+  let f := fun (name : String) =>
+    match row.find? (·.1 == name) with
+    | some e => descBits e.2.1 e.2.2
+    | none => 0
+  { second := f "Second", minute := f "Minute", hour := f "Hour",
+    dom := f "Dom", month := f "Month", dow := f "Dow" }
+
+/-- Go `parseDescriptor(descriptor, loc)`. -/
+def parseDescriptor (env : Env) (descriptor : List Char) (loc : Option String) : Outcome Sched :=
+  match Gen.descriptors.find? (fun e => e.1.contains descriptor) with
+  | some e => .ok (.spec (descSchedule e.2) loc)
+  | none =>
+    if hasPrefix Gen.everyPrefix descriptor then
+      match env.parseDuration (descriptor.drop Gen.everyPrefix.length) with
+      | none => .err "duration"
+      | some d => .ok (.every (everyDelay d))
+    else .err "unrecognized-descriptor"
+
+/-- The `TZ=`/`CRON_TZ=` prefix step of `Parse`: returns the location and the remaining spec.
+`guard` = the source checks `i == -1` (`Gen.tzNoSpaceGuard`); without it `spec[eq+1:i]` panics. -/
+def tzPrefix (guard : Bool) (env : Env) (spec : List Char) : Outcome (Option String × List Char) :=
+  if Gen.tzPrefixes.any (hasPrefix · spec) then
+    let i : Option Nat := indexOf ' ' spec
+    if guard && i.isNone then .err "tz-no-spec"
+    else
+      let eq1 : Nat := match indexOf '=' spec with | none => 0 | some e => e + 1
+      match i with
+      | none => .panic "slice bounds out of range [:-1]"
+      | some i =>
+        match sliceO spec eq1 i with
+        | .err e => .err e
+        | .panic w => .panic w
+        | .ok name =>
+          if env.knownZone name then
+            match sliceO spec i spec.length with
+            | .err e => .err e
+            | .panic w => .panic w
+            | .ok rest => .ok (some (String.ofList name), trimSpace rest)
+          else .err "bad-location"
+  else .ok (none, spec)
+
+/-- The six `field(fields[i], bounds)` calls of `Parse` (indices and bounds from the generated
+`parseFields`); every `fields[i]` is evaluated (may panic), the first `getField` error wins. -/
+def parseSix (flds : List (List Char)) : Outcome SpecSchedule :=
+  let get := fun (name : String) =>
+    match Gen.parseFields.find? (·.1 == name) with
+    | some e => (idxO flds e.2.1, boundsOf e.2.2)
+    | none => (Outcome.panic "no such field", (⟨0, 0, []⟩ : Bounds))
+  let s := get "Second"; let m := get "Minute"; let h := get "Hour"
+  let d := get "Dom"; let mo := get "Month"; let w := get "Dow"
+  match s.1, m.1, h.1, d.1, mo.1, w.1 with
+  | .ok fs, .ok fm, .ok fh, .ok fd, .ok fmo, .ok fw =>
+    match getField s.2 fs with
+    | .err e => .err e | .panic x => .panic x
+    | .ok bs =>
+    match getField m.2 fm with
+    | .err e => .err e | .panic x => .panic x
+    | .ok bm =>
+    match getField h.2 fh with
+    | .err e => .err e | .panic x => .panic x
+    | .ok bh =>
+    match getField d.2 fd with
+    | .err e => .err e | .panic x => .panic x
+    | .ok bd =>
+    match getField mo.2 fmo with
+    | .err e => .err e | .panic x => .panic x
+    | .ok bmo =>
+    match getField w.2 fw with
+    | .err e => .err e | .panic x => .panic x
+    | .ok bw => .ok { second := bs, minute := bm, hour := bh, dom := bd, month := bmo, dow := bw }
+  | _, _, _, _, _, _ => .panic "fields[i]"
+
+/-- Go `Parser.Parse(spec)` for a parser built with options `o`. `tzGuard` as in `tzPrefix`. -/
+def parseG (tzGuard : Bool) (env : Env) (o : Opts) (spec : List Char) : Outcome Sched :=
+  if spec.isEmpty then .err "empty"
+  else
+    match tzPrefix tzGuard env spec with
+    | .err e => .err e
+    | .panic w => .panic w
+    | .ok (loc, spec) =>
+      if hasPrefix ['@'] spec then
+        if !o.descriptor then .err "no-descriptors" else parseDescriptor env spec loc
+      else
+        match normalizeFields (fields spec) o with
+        | .err e => .err e
+        | .panic w => .panic w
+        | .ok flds =>
+          match parseSix flds with
+          | .err e => .err e
+          | .panic w => .panic w
+          | .ok s => .ok (.spec s loc)
+
+/-- The model of `Parser.Parse` for the code as it is now. -/
+def parse (env : Env) (o : Opts) (spec : List Char) : Outcome Sched :=
+  parseG Gen.tzNoSpaceGuard env o spec
+
+/-- `NewParser(o)` then `Parse(spec)`: the constructor panics on two optionals. -/
+def newParserParse (env : Env) (o : Opts) (spec : List Char) : Outcome Sched :=
+  if o.twoOptionals then .panic "multiple optionals may not be configured" else parse env o spec
+
+/-- `standardParser` options: Minute | Hour | Dom | Month | Dow | Descriptor. -/
+def standardOpts : Opts :=
+  { second := false, secondOptional := false, minute := true, hour := true, dom := true,
+    month := true, dow := true, dowOptional := false, descriptor := true }
+
+/-- Go `ParseStandard`. -/
+def parseStandard (env : Env) (spec : List Char) : Outcome Sched := parse env standardOpts spec
 
 end Kit.Cron
